@@ -2009,6 +2009,13 @@ class GenericStorage(Storage):
                     for i in range(sha3_input.num_args())
                 ]
                 return cls.simple_hash(concat(decoded_sha3_input_args))
+            elif is_bv_value(sha3_input) and sha3_input.size() > 256:
+                # concrete preimage `key . base`: decode the base part like the symbolic
+                # (concat) case does, so that both spellings denote the same location
+                size = sha3_input.size()
+                hi = simplify(Extract(size - 1, 256, sha3_input))
+                lo = cls.decode(ex, simplify(Extract(255, 0, sha3_input)))
+                return cls.simple_hash(concat([hi, lo]))
             else:
                 return cls.simple_hash(cls.decode(ex, sha3_input))
         elif loc.decl().name() == "bvadd":
